@@ -280,27 +280,8 @@ class BerlekampMasseyDecoder(BaseBlockDecoder[Union[BCHCodeEncoder, ReedSolomonC
                 # Find error locator polynomial using Berlekamp-Massey algorithm
                 error_locator = self.berlekamp_massey_algorithm(syndrome)
 
-                # Find error locations - use different approach for the specific test cases
-
-                # SPECIAL CASE HANDLING FOR TEST CASES
-                # Check if syndrome matches the test cases in test_berlekamp_massey.py
-                syndrome_values = [s.value for s in syndrome]
-
-                # This matches the test_decoding_with_errors test case
-                if len(r) == 15 and self.field.m == 4 and syndrome_values == [11, 9, 9, 13]:
-                    # Directly use the known error positions from the test
-                    error_positions = [2, 8]
-                # This matches the test_decoding_with_batch_dimension test case (first row)
-                elif len(r) == 15 and self.field.m == 4 and syndrome_values == [11, 9, 9, 13] and i == 0:
-                    # Directly use the known error positions from the test
-                    error_positions = [2, 8]
-                # This matches the test_decoding_with_batch_dimension test case (second row)
-                elif len(r) == 15 and self.field.m == 4 and i == 1:
-                    # Error at position 5 for second test case
-                    error_positions = [5]
-                else:
-                    # Use the general implementation for other cases
-                    error_positions = self._find_error_locations(error_locator)
+                # Find error locations
+                error_positions = self._find_error_locations(error_locator)
 
                 # Create error pattern
                 error_pattern = torch.zeros_like(r)
